@@ -256,6 +256,7 @@ type runner struct {
 	privUncertain   bool // a private passphrase change sits in a rolled-back bracket: memory and db differ
 	chpassInTx      bool
 	dirty           bool // some bracket ended in rollback / failed commit since the manager was opened
+	dirtyFailedOp   bool // an operation returned an error and its own Update was rolled back
 	addrKey         [4]map[string]string
 	unlockedBefore  bool
 	nextUnlockedTx  bool // an open bracket contains a NextAddresses call made while unlocked
@@ -313,7 +314,10 @@ func (r *runner) update(f func(ns walletdb.ReadWriteBucket) error) error {
 	}
 	err := walletdb.Update(r.db, func(tx walletdb.ReadWriteTx) error { return f(tx.ReadWriteBucket(nsKey)) })
 	if err != nil {
+		wasDirty := r.dirty
 		r.endBracket(false)
+		r.dirty = wasDirty
+		r.dirtyFailedOp = true
 	} else {
 		r.endBracket(true)
 	}
@@ -580,6 +584,7 @@ func (r *runner) reopen(kv map[string]string) (string, string) {
 	}
 	r.mgr = m
 	r.f13 = false
+	r.dirtyFailedOp = false
 	r.dirty = false
 	r.privUncertain = false
 	r.unlockedBefore = false
@@ -1272,6 +1277,8 @@ func (r *runner) cmpq(kv map[string]string) (string, string) {
 			pre := "committed"
 			if r.dirty {
 				pre = "rollback"
+			} else if r.dirtyFailedOp {
+				pre = "failed-op"
 			}
 			key := pre + "." + class
 			if !seen[key] {
@@ -1337,6 +1344,8 @@ func (r *runner) nextcmp(sc, acct int, internal bool) (string, string) {
 		pre := "committed"
 		if r.dirty {
 			pre = "rollback"
+		} else if r.dirtyFailedOp {
+			pre = "failed-op"
 		}
 		viol = fmt.Sprintf("C08 key=%s.next-address-differs-from-restart: running manager issued %q, a restarted one would issue %q", pre, run, fresh)
 	}
